@@ -44,9 +44,12 @@ def d1_aggregator(facts, rep):
         rep.ob('D1', 'K4', fn, 'op->next is set before the operation becomes visible', ok, 'CAS before the link store')
         sh = calls_named(fn, ('start_handle_operations',))
 
+        # the previous list head is the CAS's `expected` argument: null => this thread is the first
+        head_v = set(fn.n(fn.strip(o['expected'])).get('v') for _, o in ws if o['kind'] == 'cas')
+
         def first(a, truth):
             n = fn.n(fn.strip(a))
-            return (not truth) and n.get('k') == 'var' and n.get('n') == 'res'
+            return (not truth) and n.get('k') == 'var' and n.get('v') in head_v
         fe = edges_where(fn, first)
         ok = bool(sh) and bool(fe) and all(dominated_by_edges(fn, c[0], fe)[0] for c in sh)
         rep.ob('D1', 'K4', fn, 'only the thread that found the list empty becomes the handler', ok, 'handler election changed')
@@ -98,7 +101,13 @@ def d3_exceptions(facts, rep):
                 continue
             sts = [atomic_op(fn, s2) for pos2, s2, nd2 in fn.stmt_elems(('call',)) if nd2.get('ca') is not None and atomic_op(fn, s2)
                    and last_member(fn, atomic_op(fn, s2)['obj']) == 'status']
-            ok = len(sts) == 1 and fn.n(root_of(fn, sts[0]['obj'])).get('n') == 'tmp' and fn.cv(sts[0].get('val', -1)) not in (None, 0, 1)
+            from rules.common import handler_iterations
+            cur = set()          # the "current operation" variables: assigned from the list variable before it advances
+            lists = set(v for _, _, v, _ in handler_iterations(fn))
+            for p2, s3, l2, r2 in assignments(fn):
+                if fn.n(fn.strip(r2)).get('k') == 'var' and fn.n(fn.strip(r2)).get('v') in lists and fn.n(fn.strip(l2)).get('k') == 'var':
+                    cur.add(fn.n(fn.strip(l2))['v'])
+            ok = len(sts) == 1 and fn.n(root_of(fn, sts[0]['obj'])).get('v') in cur and fn.cv(sts[0].get('val', -1)) not in (None, 0, 1)
             rep.ob('D3', 'K9', fn, 'the exception handler fails exactly the current operation', ok,
                    'handler stores: %s' % [(o['path'], fn.cv(o.get('val', -1))) for o in sts])
     npush = 0
